@@ -127,8 +127,10 @@ def pick_desc(rng, ctx, allow_bad=True):
         if bg:
             k = rng.choice(sorted(bg))
             return "board:" + k, bg[k]
-    if allow_bad and r < 0.45:
+    if allow_bad and r < 0.43:
         return "bad", enc(pools.bad_game(rng))
-    if r < 0.52:
+    if r < 0.48:
         return "nosol", enc(pools.nosol_game(rng))
-    return "rand", enc(pools.rand_game(rng))
+    if r < 0.56:
+        return "rand", enc(pools.rand_game(rng))
+    return "stopping", enc(pools.stopping_game(rng))
